@@ -19,8 +19,21 @@
                                   (PCR0) led by one event EV_NO_ACTION with data [startup_data loc];
     - [differ_in_noaction_digest e e'] : same event, except that the digest bytes of an EV_NO_ACTION event
                                   may differ (same bank, same length).
-    Outcomes: [Ok v] value, [Err c] an error value was returned, [Panic], [OutOfFuel]. *)
-From CSS Require Import Lib.Base Model.EventLog Proofs.EventLog.
+    Outcomes: [Ok v] value, [Err c] an error value was returned, [Panic], [OutOfFuel].
+
+    Histories (Model/EventLogSess.v, section 7): ONE [*TPMEventLog] object over a heap of Event
+    objects ([ls_heap], address = index) with [ls_evs] the pointers in [log.Events];
+    - [sop]                     : a step of a session: the calls [SReplay p a], [SFilter p a], [SFromParsed],
+                                  and the owner's edits between them: [SNew e] (a new Event object),
+                                  [SSetEvent ad e] (any in-place edit of the Event at address [ad]),
+                                  [SSetEvents evs] (any edit of the slice [log.Events]);
+    - [srun H s ops]            : the state after the session and the result of every step;
+    - [log_after s ops]         : the memory after the owner's edits in [ops] (calls do nothing to it);
+    - [log_of s]                : the log as it reads in state [s] ([*log.Events[i]] for every i);
+    - [srun_memo]               : NOT the code: a log object that remembers its selections per (PCR,
+                                  algorithm, number of events); only used as the witness that the
+                                  session theorems exclude such an object. *)
+From CSS Require Import Lib.Base Model.EventLog Model.EventLogSess Proofs.EventLog Proofs.EventLogSess.
 
 (** * 1. Whenever Replay returns a value, it is the TCG fold over exactly the measurement events *)
 
@@ -138,6 +151,89 @@ Theorem C12_replays_agree_startup : forall H, hash_len_ok H -> forall log es a s
 Proof. exact replays_agree_startup. Qed.
 Print Assumptions C12_replays_agree_startup.
 
+(** * 7. Histories: one log object, replayed several times and edited in place between the calls *)
+
+(** The result of the call made after the steps [pre] is what that call returns on the memory
+    as the owner's edits in [pre] left it: the calls made before do not matter. *)
+Theorem C12_session_result_is_of_current_log : forall H s pre op post,
+  nth_error (snd (srun H s (pre ++ op :: post))) (length pre)
+  = Some (call_result H (log_after s (filter is_edit pre)) op).
+Proof. exact session_result_current. Qed.
+Print Assumptions C12_session_result_is_of_current_log.
+
+(** Two histories with the same edits (and any calls, in any number, in between): the same answer. *)
+Theorem C12_session_history_independent : forall H s pre pre' op post post',
+  filter is_edit pre = filter is_edit pre' ->
+  nth_error (snd (srun H s (pre ++ op :: post))) (length pre)
+  = nth_error (snd (srun H s (pre' ++ op :: post'))) (length pre').
+Proof. exact session_history_independent. Qed.
+Print Assumptions C12_session_history_independent.
+
+(** A value returned by Replay anywhere in a session is the TCG fold over exactly the measurement
+    events of that PCR and bank of the log AS IT IS AT THAT MOMENT, in its order at that moment. *)
+Theorem C12_session_replay_is_fold : forall H, hash_len_ok H -> forall s pre p a post v,
+  nth_error (snd (srun H s (pre ++ SReplay p a :: post))) (length pre) = Some (RReplay (Ok v)) ->
+  let log := log_of (log_after s (filter is_edit pre)) in
+  v = fold_left (fun acc d => H a (acc ++ d)) (meas_digests log p a) (seed log p a).
+Proof. exact session_replay_is_fold. Qed.
+Print Assumptions C12_session_replay_is_fold.
+
+(** ... and a log that is well-formed at that moment is replayed, whatever it was before. *)
+Theorem C12_session_wellformed_accepted : forall H, hash_len_ok H -> forall s pre p a post,
+  wellformed (log_of (log_after s (filter is_edit pre))) p a ->
+  exists v, nth_error (snd (srun H s (pre ++ SReplay p a :: post))) (length pre) = Some (RReplay (Ok v)).
+Proof. exact session_wellformed_accepted. Qed.
+Print Assumptions C12_session_wellformed_accepted.
+
+(** FilterEvents in a session returns the log's own pointers to exactly the events selected at that moment. *)
+Theorem C12_session_filter_exact : forall H s pre p a post ads,
+  nth_error (snd (srun H s (pre ++ SFilter p a :: post))) (length pre) = Some (RFilter (Ok ads)) ->
+  let cur := log_after s (filter is_edit pre) in
+  ads = filter (fun ad => sel p a (deref (ls_heap cur) ad)) (ls_evs cur) /\
+  map (deref (ls_heap cur)) ads = selected (log_of cur) p a.
+Proof. exact session_filter_exact. Qed.
+Print Assumptions C12_session_filter_exact.
+
+(** The calls only read: the memory after a session is the memory after its edits alone. *)
+Theorem C12_session_calls_leave_log_alone : forall H s ops,
+  fst (srun H s ops) = log_after s (filter is_edit ops).
+Proof. exact session_state_frame. Qed.
+Print Assumptions C12_session_calls_leave_log_alone.
+
+(** The same question twice in a row gets the same answer. *)
+Theorem C12_session_same_call_twice : forall H s pre op post,
+  is_edit op = false ->
+  nth_error (snd (srun H s (pre ++ op :: op :: post))) (S (length pre))
+  = nth_error (snd (srun H s (pre ++ op :: op :: post))) (length pre).
+Proof. exact session_same_call_twice. Qed.
+Print Assumptions C12_session_same_call_twice.
+
+(** No Replay / FilterEvents call of any session panics, whatever the owner did to the log. *)
+Theorem C12_session_never_panics : forall H ops s, Forall res_no_panic (snd (srun H s ops)).
+Proof. exact session_never_panics. Qed.
+Print Assumptions C12_session_never_panics.
+
+(** Non-vacuity: a log object that remembers its selections per (PCR, algorithm, number of events)
+    answers the first call like the code does, but is excluded by the theorems above: replay, swap two
+    events in place, replay again -- it repeats its first answer, the code's model gives the fold
+    over the swapped log. *)
+Theorem C12_session_remembering_object_witness :
+  hash_len_ok sum_hash /\
+  nth_error (snd (srun sum_hash w_state w_ops)) 2
+    = Some (RReplay (replay sum_hash (log_of (log_after w_state (filter is_edit [SReplay 0 4; SSetEvents [1%nat; 0%nat]]))) 0 4)) /\
+  nth_error (snd (srun_memo sum_hash ([], w_state) w_ops)) 2
+    <> nth_error (snd (srun sum_hash w_state w_ops)) 2 /\
+  nth_error (snd (srun_memo sum_hash ([], w_state) w_ops)) 2
+    = nth_error (snd (srun_memo sum_hash ([], w_state) w_ops)) 0.
+Proof. exact memo_session_differs. Qed.
+Print Assumptions C12_session_remembering_object_witness.
+
+Theorem C12_session_remembering_object_first_call : forall H s p a,
+  snd (sstep_memo H ([], s) (SReplay p a)) = snd (sstep H s (SReplay p a)) /\
+  snd (sstep_memo H ([], s) (SFilter p a)) = snd (sstep H s (SFilter p a)).
+Proof. exact memo_session_agrees_on_first_call. Qed.
+Print Assumptions C12_session_remembering_object_first_call.
+
 (** * Examples: the hypotheses are satisfiable by non-trivial values *)
 
 (** a function with the right output sizes (not a hash, of course) *)
@@ -192,3 +288,26 @@ Example C12_differ_satisfiable :
   Forall2 differ_in_noaction_digest example_log
     (mkEv 0 EV_NO_ACTION (startup_data 3) (Some (mkDg 4 (repeat 255 20))) :: tl example_log).
 Proof. repeat constructor. Qed.
+
+(** a session on [example_log]: replay, move the third event to PCR1 through its pointer, swap the
+    last two SHA1 measurements, replay again: both answers are values, and they differ *)
+Definition example_state : lstate := mkLS example_log [0; 1; 2; 3; 4; 5]%nat.
+Definition example_ops : list sop :=
+  [ SReplay 0 4; SFilter 0 4;
+    SSetEvent 2 (mkEv 1 EV_POST_CODE [1; 2] (Some (mkDg 4 (repeat 7 20))));
+    SSetEvents [0; 1; 5; 3; 4; 2]%nat;
+    SReplay 0 4; SFilter 0 4; SReplay 1 4 ].
+
+Example C12_session_example :
+  wellformed (log_of (log_after example_state (filter is_edit (firstn 4 example_ops)))) 0 4 /\
+  exists v1 v2 v3,
+    snd (srun sum_hash example_state example_ops)
+    = [RReplay (Ok v1); RFilter (Ok [0; 2; 5]%nat); RNone; RNone;
+       RReplay (Ok v2); RFilter (Ok [0; 5]%nat); RReplay (Ok v3)] /\ v1 <> v2.
+Proof.
+  split.
+  - exists 20. split; [reflexivity|]. split; [left; reflexivity|]. split; [repeat constructor|].
+    right. split; [reflexivity|]. eexists. eexists. exists 3.
+    split; [reflexivity|]. split; [reflexivity|]. split; [reflexivity|]. repeat constructor.
+  - eexists. eexists. eexists. split; [vm_compute; reflexivity|]. vm_compute. intro E. discriminate E.
+Qed.
